@@ -118,6 +118,47 @@ pub fn case(ctx: &mut Ctx, tag: &str, cap: &str, buf0: &str, stream: &str, end: 
     ctx.emit(tag, &[cap, buf0, stream, end, sizes, pending, &info], &obs);
 }
 
+fn seq_with<const N: usize>(reader: &mut ScriptReader) -> (Vec<String>, Vec<u8>) {
+    let mut buf: FixedBuf<N> = FixedBuf::new();
+    let addr: SocketAddr = "127.0.0.1:1".parse().unwrap();
+    let mut outs = Vec::new();
+    loop {
+        match block_on(read_http_request(addr, &mut buf, &mut *reader)) {
+            Ok(req) => outs.push(show_request(&req)),
+            Err(e) => {
+                outs.push(format!("err:{}", err_name(&e)));
+                break;
+            }
+        }
+        if outs.len() > 64 {
+            break;
+        }
+    }
+    (outs, buf.readable().to_vec())
+}
+
+/// A sequence of requests read through ONE buffer (all of them bodiless): outcomes joined by `|`.
+pub fn case_seq(ctx: &mut Ctx, cap: &str, stream: &str, end: &str, sizes: &str, pending: &str) {
+    let capn: usize = cap.parse().unwrap();
+    let st = dec(stream);
+    let rs = parse_sizes(sizes);
+    let end_err = end == "err";
+    let pend: u64 = pending.parse().unwrap();
+    let obs = guard(move || {
+        let mut reader = ScriptReader::new(st, rs, end_err, pend);
+        let (outs, left_buf) = match capn {
+            64 => seq_with::<64>(&mut reader),
+            256 => seq_with::<256>(&mut reader),
+            8192 => seq_with::<8192>(&mut reader),
+            _ => panic!("unsupported cap"),
+        };
+        let mut left = left_buf;
+        left.extend_from_slice(&reader.data[reader.pos..]);
+        format!("{} left={}", outs.join("|"), enc(&left))
+    });
+    ctx.emit("c01s", &[cap, stream, end, sizes, pending], &obs);
+}
+
 pub fn emit(ctx: &mut Ctx, tag: &str, cap: usize, buf0: &[u8], stream: &[u8], end: &str, sizes: &[usize], pending: u64) {
     case(ctx, tag, &cap.to_string(), &enc(buf0), &enc(stream), end, &crate::gen::sizes_str(sizes), &pending.to_string());
 }
